@@ -79,6 +79,35 @@ Theorem C09_mean_dimension_masked : forall (sh : list nat), sh <> [] -> forall (
   sumR (repeat 2%nat (length sh)) (fun al => eval m al * r_comp sh t g al).
 Proof. exact mean_dimension_masked_spec. Qed.
 
+(* order consequences over the reals, for non-negative marginals and positive total variance *)
+From TN Require Import Proofs.SobolOrderR.
+Theorem C09_components_nonneg : forall (sh : list nat) (t : list (score RO)) (g : margT sh) al,
+  nonneg_marg sh g -> 0 <= r_comp sh t g al.
+Proof. exact comp_nonneg. Qed.
+Theorem C09_empty_component : forall (sh : list nat) (t : list (score RO)) (g : margT sh), okT sh t ->
+  r_comp sh t g (zeros (length sh)) = 0.
+Proof. exact comp_empty. Qed.
+(* indices are monotone in the mask: a total index dominates the corresponding variance component, closed indices, ... *)
+Theorem C09_monotone : forall (sh : list nat) (t m1 m2 : list (score RO)) (g : margT sh),
+  okT sh t -> okM sh m1 -> okM sh m2 -> nonneg_marg sh g -> 0 < sumR (repeat 2%nat (length sh)) (r_comp sh t g) ->
+  (forall al, in_range (repeat 2%nat (length sh)) al = true -> eval m1 al <= eval m2 al) ->
+  r_sobol sh t m1 g <= r_sobol sh t m2 g.
+Proof. exact sobol_monotone. Qed.
+Theorem C09_unit_interval : forall (sh : list nat) (t m : list (score RO)) (g : margT sh),
+  okT sh t -> okM sh m -> nonneg_marg sh g -> 0 < sumR (repeat 2%nat (length sh)) (r_comp sh t g) ->
+  (forall al, in_range (repeat 2%nat (length sh)) al = true -> 0 <= eval m al <= 1) ->
+  0 <= r_sobol sh t m g <= 1.
+Proof. exact sobol_in_unit_interval. Qed.
+Theorem C09_mean_dimension_ge_1 : forall (sh : list nat), sh <> [] -> forall (t : list (score RO)) (g : margT sh),
+  okT sh t -> nonneg_marg sh g -> 0 < sumR (repeat 2%nat (length sh)) (r_comp sh t g) ->
+  1 <= gen_anova_mean_dimension_N (list (score RO)) (margT sh) (r_sobol sh) r_weight r_dim t g.
+Proof. exact mean_dimension_ge_1. Qed.
+
+Print Assumptions C09_components_nonneg.
+Print Assumptions C09_empty_component.
+Print Assumptions C09_monotone.
+Print Assumptions C09_unit_interval.
+Print Assumptions C09_mean_dimension_ge_1.
 Print Assumptions C09_mean_dimension.
 Print Assumptions C09_mean_dimension_masked.
 Print Assumptions C09_sobol_parts.
